@@ -56,7 +56,7 @@ def drive(rep, pid, tier, seed):
     for sc in scens[:2]:
         rep.sample({"chain": sc[0].get("chain"), "members": sc[0].get("members"), "ops": sc[1:10]})
     # the chain the command line builds from -s / -c / "a|b" / --cache-repair: the real binary over local and HTTP stores
-    cli_common.run(rep, vlib.workdir("C11-cli"), seed, "chain", tier == "thorough")
+    cli_common.run(rep, vlib.workdir("C11-cli"), seed, "chain,ssh", tier == "thorough")
     rep.rule = ("case = random chain (router of leaves/groups, cache +- repair over leaf/router/failover group, dedup or swap wrapper, writable single store) over "
                 "2-7 members (in-memory or real LocalStore, compressed or not, verifying or not) with random contents {absent, good, corrupt} for 3 IDs x 25-30 "
                 "operations (GetChunk/HasChunk/StoreChunk, member starts/stops failing, chunk appears/disappears/gets corrupted); plus Swap-under-load and "
